@@ -1,4 +1,5 @@
 From Coq Require Import ZArith List Extraction ExtrOcamlBasic.
-From Kenlm Require Import C03.BhikshaModel.
+From Kenlm Require Import C03.BhikshaModel C03.QuantModel.
 Extraction Language OCaml.
-Extraction "extracted/c03_model.ml" bhiksha_write read_next chop_bits inline_bits array_count.
+Extraction "extracted/c03_model.ml" bhiksha_write read_next chop_bits inline_bits array_count
+  train_prob train_backoff encode_prob encode_backoff_nonzero decode stored.
